@@ -1,6 +1,10 @@
 import GdVerif.Run.Reader
 import GdVerif.Run.Valve
 import GdVerif.Run.GenValve
+import GdVerif.Run.Gs1
+import GdVerif.Run.GenGs1
+import GdVerif.Run.Gs2
+import GdVerif.Run.GenGs2
 import GdVerif.Run.Master
 import GdVerif.Run.Settings
 import GdVerif.Run.Views
@@ -29,6 +33,7 @@ open Gd Gd.Run
 
 
 
+
 def allEntries : List (String × (List String → String)) := List.flatten [
   readerEntries,
   valveEntries,
@@ -44,7 +49,9 @@ def allEntries : List (String × (List String → String)) := List.flatten [
   McDrv.minecraftEntries,
   gs3Entries,
   jc2mEntries,
-  smallEntries
+  smallEntries,
+  gs1Entries,
+  gs2Entries
   ]
 
 def runLine (line : String) : String :=
@@ -73,6 +80,8 @@ def main (args : List String) : IO UInt32 := do
     | some seed, some n =>
       let lines := match suite with
         | "valve" => genValve seed n
+        | "gs1" => genGs1 seed n
+        | "gs2" => genGs2 seed n
         | "quake" => genQuake seed n
         | "unreal2" => genUnreal2 seed n
         | "u2str" => genUnreal2Strings seed n
